@@ -20,8 +20,7 @@ theorem lines_ok (l0 : Bytes) (fs : List Field) (h0 : LineOk l0) (hf : ∀ f ∈
   · exact h0
   · exact fieldLine_ok f (hf f hf')
 
-theorem parseRequest_wf (h : ReqHead) (body : Bytes) (wf : WFReq h)
-    (hu : ∀ f ∈ h.fields, KF.C05.fieldUSpace f = false) :
+theorem parseRequest_wf (h : ReqHead) (body : Bytes) (wf : WFReq h) :
     ∃ info, parseRequest (renderReq h ++ body) =
       .ok (assembleReq h.method h.target h.ver (hdrsAll h.fields) (requestLine h) info) := by
   have h0 := requestLine_ok h wf
@@ -29,7 +28,7 @@ theorem parseRequest_wf (h : ReqHead) (body : Bytes) (wf : WFReq h)
   have hn := wf.2.2.2.2.2.1
   have hlines := lines_ok _ _ h0 hf
   have hend := rendered_endsAtFirstBlank _ (by simp) hlines
-  obtain ⟨info, hinfo⟩ := parseHeaders_fields h.fields hn hf hu
+  obtain ⟨info, hinfo⟩ := parseHeaders_fields h.fields hn hf
   refine ⟨info, ?_⟩
   unfold parseRequest
   rw [renderReq_eq, headBytes_append _ body hend]
@@ -51,8 +50,7 @@ theorem parseRequest_wf (h : ReqHead) (body : Bytes) (wf : WFReq h)
   rw [this, hinfo]
   rfl
 
-theorem parseResponse_wf (h : ResHead) (body : Bytes) (wf : WFRes h)
-    (hu : ∀ f ∈ h.fields, KF.C05.fieldUSpace f = false) :
+theorem parseResponse_wf (h : ResHead) (body : Bytes) (wf : WFRes h) :
     ∃ info, parseResponse (renderRes h ++ body) =
       .ok (assembleRes h.ver (statusValue h.status) h.reason (hdrsAll h.fields) (statusLine h) info) := by
   have h0 := statusLine_ok h wf
@@ -60,7 +58,7 @@ theorem parseResponse_wf (h : ResHead) (body : Bytes) (wf : WFRes h)
   have hn := wf.2.2.2.2.2.1
   have hlines := lines_ok _ _ h0 hf
   have hend := rendered_endsAtFirstBlank _ (by simp) hlines
-  obtain ⟨info, hinfo⟩ := parseHeaders_fields h.fields hn hf hu
+  obtain ⟨info, hinfo⟩ := parseHeaders_fields h.fields hn hf
   refine ⟨info, ?_⟩
   unfold parseResponse
   rw [renderRes_eq, headBytes_append _ body hend]
